@@ -12,7 +12,8 @@
 (* the ledger are multiplicative and span 40 decades.                      *)
 (*                                                                         *)
 (* A trace is accepted iff every event is a step of the ledger model:      *)
-(*   Order     bonds are visited in the routine's order, each exactly once *)
+(*   Order     every bond is visited exactly once (in whatever order the   *)
+(*             routine sweeps: the direction is not part of the property)  *)
 (*   RankOK    1 <= r <= min(#singular values, cap)                        *)
 (*   ChopOK    discarded energy <= (per-bond tolerance)^2 * |spectrum|^2   *)
 (*             unless the cap was binding                                  *)
@@ -40,7 +41,7 @@ T == Traces[tid]
 Init == tid \in 1..NT /\ l = 1 /\ capped = FALSE
 
 StepOK(e) ==
-    /\ e.bond = (IF T.routine = "to_tt" THEN l ELSE T.d - l)                       \* Order
+    /\ e.bond >= 1 /\ e.bond <= T.d - 1 /\ \A j \in 1..(l - 1) : T.ev[j].bond # e.bond   \* Order: every bond once, in any order
     /\ e.r >= 1 /\ e.r <= e.nsv /\ e.r <= e.cap                                      \* RankOK
     /\ (e.r < e.cap \/ e.r = e.nsv => e.tail_L <= e.thr_L + SLACK)                   \* ChopOK
     /\ (e.epsb2_L = ZERO \/ e.epsb2_L + LogInt(T.d - 1) <= T.eps2_L + SLACK)           \* Split
